@@ -297,6 +297,40 @@ Definition find_or_create_table (w : world) (src : nat) (add rem : list nat) (ta
       end
   end.
 
+(** What [findOrCreateArchetype] leaves behind when it does NOT return: the graph nodes it
+    created before the panic ("added twice", "added and removed", "second relation
+    component") stay in the world.  [walk_add_w] is [walk_add] keeping the world reached. *)
+Fixpoint walk_add_w (w : world) (start m : N) (rel : option nat) (ids : list nat) : world :=
+  match ids with
+  | [] => w
+  | id :: r =>
+      if bit m id then w
+      else if bit start id then w
+      else if reg_is_rel w id && bool_decide (is_Some rel) then w
+      else
+        let m' := setb m id true in
+        let rel' := if reg_is_rel w id then Some id else rel in
+        walk_add_w (fst (find_or_create_node w m' rel')) start m' rel' r
+  end.
+
+(** The world after [findOrCreateArchetype], however far it got: with the table when it
+    returned, with the nodes created so far when it panicked. *)
+Definition foc_world (w : world) (src : nat) (add rem : list nat) (target : Entity) : world :=
+  match find_or_create_table w src add rem target with
+  | Some (w1, _) => w1
+  | None =>
+      match w_tables w !! src with
+      | None => w
+      | Some st =>
+          match w_nodes w !! t_node st with
+          | None => w
+          | Some snd_ =>
+              let '(w1, m1, rel1) := walk_rem w (n_mask snd_) (n_rel snd_) rem in
+              walk_add_w w1 (n_mask snd_) m1 rel1 add
+          end
+      end
+  end.
+
 (** [archNode.RemoveArchetype] + [archetype.Deactivate] + [Cache.removeArchetype]. *)
 Definition retire_table (w : world) (tid : nat) : world :=
   match w_tables w !! tid with
@@ -529,6 +563,41 @@ Definition exchange_nn (w : world) (e : Entity) (add rem : list nat) (rel : opti
           end
       end
   | _ => None
+  end.
+
+(** The world a PANICKING [exchangeNoNotify] leaves behind: unchanged when a check before
+    the graph walk fails, with the nodes (and possibly the table) [findOrCreateArchetype]
+    created when the panic comes from the walk itself (a second relation component). *)
+Definition exchange_ghost (w : world) (e : Entity) (add rem : list nat) (rel : option (nat * Entity)) : world :=
+  if is_locked w then w else
+  match chk_alive w e with
+  | Some true =>
+      if negb (match rel with Some (_, tg) => target_ok w tg | None => true end) then w else
+      match add, rem with
+      | [], [] => w
+      | _, _ =>
+          match loc w e with
+          | None => w
+          | Some (src, row) =>
+              match w_tables w !! src with
+              | None => w
+              | Some st =>
+                  match w_nodes w !! t_node st with
+                  | None => w
+                  | Some sn =>
+                      match exchange_mask (n_mask sn) add rem with
+                      | None => w
+                      | Some mask =>
+                          match exchange_target w (n_mask sn) mask (t_target st) rem rel with
+                          | None => w
+                          | Some target => foc_world w src add rem target
+                          end
+                      end
+                  end
+              end
+          end
+      end
+  | _ => w
   end.
 
 (** [World.checkRelation] (after the repair of defect D8: the node must have a relation
